@@ -474,10 +474,46 @@ func maxReferrers(spec wk.Spec, ids []b6.FeatureID) int {
 
 // ---- histories --------------------------------------------------------------------
 
-type op struct{ slot, v int }
+// op: AddFeature(slot = variant v), or a tag edit of the slot's feature.
+type op struct {
+	slot, v int
+	tag     string // "" = AddFeature; "add" | "remove"
+	key     string
+}
 
 func (o op) String(m []slot) string {
+	switch o.tag {
+	case "add":
+		return "AddTag(" + m[o.slot].name + ", " + o.key + "=1)"
+	case "remove":
+		return "RemoveTag(" + m[o.slot].name + ", " + o.key + ")"
+	}
 	return "AddFeature(" + m[o.slot].name + "=" + m[o.slot].vs[o.v].name + ")"
+}
+
+// tagOps: tag edits of a point, a path, an area and a relation: a searchable
+// key and a plain key added, and the removal of the key the menu's variants
+// carry (searchable for P0 tagged / W0 / A0, plain for R0). Tag edits do not
+// change who references whom, so the oracle is that of the unchanged state;
+// what they change is where the overlay keeps the feature (a searchable edit,
+// or the first tag of a location-only point, copies a base feature into the
+// overlay without its referrers).
+func tagOps() []op {
+	var out []op
+	carried := map[int]string{sP0: "#amenity", sW0: "#highway", sA0: "#building", sR0: "type"}
+	for _, sl := range []int{sP0, sW0, sA0, sR0} {
+		out = append(out, op{slot: sl, tag: "add", key: "#x"}, op{slot: sl, tag: "add", key: "note"}, op{slot: sl, tag: "remove", key: carried[sl]})
+	}
+	return out
+}
+
+func slotID(m []slot, sl int, s wk.IDScheme) b6.FeatureID {
+	for _, v := range m[sl].vs {
+		if f := v.f(s); f != nil {
+			return f.ID
+		}
+	}
+	panic("slot without a feature")
 }
 
 func ops(m []slot, rad []int, slots []int) []op {
@@ -485,7 +521,7 @@ func ops(m []slot, rad []int, slots []int) []op {
 	for _, i := range slots {
 		for v := 0; v < rad[i]; v++ {
 			if m[i].vs[v].name != "absent" {
-				out = append(out, op{i, v})
+				out = append(out, op{slot: i, v: v})
 			}
 		}
 	}
@@ -503,6 +539,7 @@ type histCfg struct {
 	kind   string
 	depth  int
 	ops    []op
+	tagged bool // only histories with at least one tag edit (the others belong to the AddFeature-only families)
 	cyclic bool // true: only histories that visit a cyclic state; false: only histories whose states are all acyclic
 }
 
@@ -596,7 +633,25 @@ func runHistories(r *kit.Result, c *histCfg, start state) {
 		case kindOverlay:
 			w = ingest.NewMutableOverlayWorld(base)
 		}
+		tagEdits := 0
 		for _, o := range n.hist {
+			if o.tag != "" {
+				id := slotID(c.m, o.slot, c.sch)
+				var err error
+				if o.tag == "add" {
+					err = w.AddTag(id, b6.Tag{Key: o.key, Value: b6.NewStringExpression("1")})
+				} else {
+					err = w.RemoveTag(id, o.key)
+				}
+				if err != nil {
+					r.Count("tag-edit-of-present-feature-rejected", 1)
+					r.AddOutcome(c.kind + ":skipped:tag-edit-rejected")
+					return
+				}
+				former = append(former, expect(cur))
+				tagEdits++
+				continue
+			}
 			curSpec := cur.spec(c.m, c.sch)
 			nf := c.m[o.slot].vs[o.v].f(c.sch)
 			old := curSpec.Find(nf.ID)
@@ -634,6 +689,10 @@ func runHistories(r *kit.Result, c *histCfg, start state) {
 			tag = "replaces-referrer-by-non-referrer"
 			r.Count(c.kind+":histories-replacing-a-referrer-by-a-non-referrer", 1)
 		}
+		if tagEdits > 0 {
+			tag += "+tag-edit"
+			r.Count(c.kind+":histories-with-tag-edits", 1)
+		}
 		if n.anyCycle {
 			tag += "+cycle"
 			r.Count(c.kind+":histories-visiting-a-cyclic-state", 1)
@@ -648,12 +707,25 @@ func runHistories(r *kit.Result, c *histCfg, start state) {
 	var rec func(n node, length int)
 	rec = func(n node, length int) {
 		if len(n.hist) == length {
-			if n.anyCycle == c.cyclic {
+			hasTag := false
+			for _, o := range n.hist {
+				if o.tag != "" {
+					hasTag = true
+				}
+			}
+			if n.anyCycle == c.cyclic && (!c.tagged || hasTag) {
 				check(n)
 			}
 			return
 		}
 		for _, o := range c.ops {
+			if o.tag != "" {
+				if c.m[o.slot].vs[n.st[o.slot]].name == "absent" {
+					continue // nothing to edit
+				}
+				rec(node{st: n.st, hist: append(append([]op{}, n.hist...), o), anyCycle: n.anyCycle}, length)
+				continue
+			}
 			nx := n.st
 			nx[o.slot] = uint8(o.v)
 			if !isValid(nx) {
@@ -974,6 +1046,44 @@ func build(tier string) (kit.Space, string) {
 		bound = append(bound, fmt.Sprintf("acyclic family, full menu: %d start states x 2 kinds x every all-acyclic sequence of <= %d of %d operations", nF/2, d, len(ops(m, full, allSlots))))
 	}
 
+	// 4. tag-edit family: histories with at least one AddTag/RemoveTag, interleaved
+	//    with AddFeature operations, all states acyclic
+	{
+		acS, _ := states(m, small, sch)
+		tagStart := func(st state, narrow bool) bool {
+			ok := st[sW1] == 0 && st[sW0] <= 1 && st[sC0] != 1
+			if narrow {
+				ok = ok && st[sR1] == 0 && st[sC0] == 0
+			}
+			return ok
+		}
+		edits := append(ops(m, small, []int{sP0, sW0, sA0, sR0}), tagOps()...)
+		all := append(ops(m, small, allSlots), tagOps()...)
+		nStarts, nNarrow := 0, 0
+		for _, kind := range []string{kindOverlay, kindMutable} {
+			hc := &histCfg{m: m, sch: sch, kind: kind, depth: 2, ops: all, tagged: true}
+			for _, st := range acS {
+				if thorough || tagStart(st, false) {
+					cases = append(cases, caseDef{what: cHist, st: st, hc: hc})
+					nStarts++
+				}
+			}
+		}
+		bound = append(bound, fmt.Sprintf("tag-edit family: %d start states x 2 kinds x every all-acyclic sequence of <= 2 of %d operations (AddFeature + 12 tag edits: AddTag searchable / plain, RemoveTag, on P0, W0, A0, R0) holding a tag edit", nStarts/2, len(all)))
+		if thorough {
+			for _, kind := range []string{kindOverlay, kindMutable} {
+				hc := &histCfg{m: m, sch: sch, kind: kind, depth: 3, ops: edits, tagged: true}
+				for _, st := range acS {
+					if tagStart(st, true) {
+						cases = append(cases, caseDef{what: cHist, st: st, hc: hc})
+						nNarrow++
+					}
+				}
+			}
+			bound = append(bound, fmt.Sprintf("tag-edit family, depth 3: %d start states x 2 kinds x sequences of <= 3 of %d operations holding a tag edit", nNarrow/2, len(edits)))
+		}
+	}
+
 	lastCases = cases
 	return kit.FuncSpace{N: int64(len(cases)), F: func(i int64) kit.Result {
 		var r kit.Result
@@ -1001,7 +1111,7 @@ func main() {
 	kit.Main(&kit.Check{
 		ID: "C15", Level: "model_checking",
 		Rule: "state = one variant per slot of the reference-graph menu (P0 plain/tagged; paths W0, W1 through or past P0, closed or open; area A0 on W0, W1 or both; relations R0, R1 with point/path/area/relation/collection members incl. self-membership, mutual membership, duplicate members; collection C0 keyed by point/relation/area/itself), only states valid as given. " +
-			"Static cases build the state; history cases start from the state (added feature by feature to BasicMutableWorld, or as the static basic base of a MutableOverlayWorld) and apply every sequence of AddFeature(variant) operations up to the depth whose every intermediate state is valid (adds and replacements, incl. replacement by a version that no longer refers and by an identical version). " +
+			"Static cases build the state; history cases start from the state (added feature by feature to BasicMutableWorld, or as the static basic base of a MutableOverlayWorld) and apply every sequence of AddFeature(variant) operations up to the depth whose every intermediate state is valid (adds and replacements, incl. replacement by a version that no longer refers and by an identical version); the tag-edit family interleaves them with AddTag (searchable '#x' / plain 'note') and RemoveTag (the key the variant carries) on the point, a path, the area and a relation, which leave the model's referrers unchanged. " +
 			"After each sequence every reference query (FindReferences untyped / per type / path+relation, FindRelationsByFeature, FindCollectionsByFeature, FindAreasByPoint) on 11 present and absent IDs is compared with worldkit Ref.Referrers of the model state; non-trivial = some queried feature has a referrer.",
 		Assumptions: []string{
 			"compact world checked against the chains its own queries define (relations by direct membership, paths of a point, areas of a point through its paths; no collections) — narrower than the transitive closure of the in-memory worlds; the sections where the two definitions differ are counted, not alarmed",
